@@ -54,6 +54,34 @@ func c19rateOKexact(q, fi, rate int64) bool {
 	return l.Cmp(r) <= 0
 }
 
+// c19searchRow emits what the real constructor chose for an integer rate as a row for the model's exact-arithmetic search
+// (`tb.search`). The constructor computes in float64: the row is skipped (with a note) for a rate at which one of the
+// candidates it visits sits exactly on the 1 % boundary or on an integer boundary of the quotient, where rounding decides.
+func c19searchRow(o *outw, rate, q, fi int64) {
+	if rate <= 0 {
+		return
+	}
+	big1e9 := big.NewInt(1_000_000_000)
+	for cq := int64(1); cq <= q; {
+		n := new(big.Int).Mul(big1e9, big.NewInt(cq))
+		cfi, rem := new(big.Int).QuoRem(n, big.NewInt(rate), new(big.Int))
+		x := new(big.Int).Mul(big.NewInt(rate), cfi)
+		lhs := new(big.Int).Mul(big.NewInt(100), new(big.Int).Sub(n, x))
+		if lhs.Cmp(x) == 0 && cfi.Sign() > 0 {
+			o.N(fmt.Sprintf("C19 search: rate %d has a candidate quantum %d exactly on the 1%% boundary; comparison with the exact search skipped", rate, cq))
+			return
+		}
+		_ = rem
+		nq := cq * 11 / 10
+		if nq == cq {
+			nq++
+		}
+		cq = nq
+	}
+	o.T(fmt.Sprintf("tb.search rate=%d", rate), fmt.Sprintf("q=%d fi=%d", q, fi))
+	o.stat("search_rows", 1)
+}
+
 func c19logRate(r *rng, lo, hi float64) int64 {
 	u := float64(r.next()%1_000_000) / 1_000_000
 	return int64(math.Exp(math.Log(lo) + u*(math.Log(hi)-math.Log(lo))))
@@ -84,6 +112,7 @@ func c19buckets(c *ctx) {
 		if math.Abs(b.Rate()-float64(rate))/float64(rate) <= 0.01 {
 			implOK = 1
 		}
+		c19searchRow(o, rate, q, fi)
 		o.T(fmt.Sprintf("tb.new rate=%d cap=%d q=%d fi=%d", rate, cp, q, fi), fmt.Sprintf("ok rateOK=%d", implOK))
 		if !c19rateOKexact(q, fi, rate) {
 			o.V("C19 constructor-rate-outside-1%: the limiter's real rate differs from the configured rate by more than 1 %",
